@@ -200,3 +200,39 @@ def edits(word, start=0):
 
 
 PREFIX = S.REQ_ALL
+
+
+# ---------------------------------------------------------------------------------------------
+# require structures: which capability strings load what, in every list shape
+
+REQ_NAMES = ['"fileinto"', '"copy"', '"imap4flags"', '"Fileinto"', '" fileinto"', '"copy\t"', '"nosuch"', '""']
+REQ_USES = [("fileinto", "STR", ";"), ("fileinto", ":copy", "STR", ";"), ("keep", ":flags", "STR", ";"), ("keep", ";"),
+            ("if", "hasflag", "STR", "{", "fileinto", "STR", ";", "}"), ("redirect", ":copy", "STR", ";")]
+
+
+def _req_cmds(maxnames):
+    out = []
+    for n in REQ_NAMES:
+        out.append(("require", n, ";"))
+    for k in range(1, maxnames + 1):
+        for names in itertools.product(REQ_NAMES, repeat=k):
+            w = ["require", "["]
+            for i, n in enumerate(names):
+                if i:
+                    w.append(",")
+                w.append(n)
+            out.append(tuple(w + ["]", ";"]))
+    return out
+
+
+def require_scripts(maxnames_one, maxnames_two):
+    """(no REQ_ALL prefix) one require command with <= maxnames_one names, or two with <= maxnames_two each
+    (names may repeat within and across commands), followed by each use of REQ_USES"""
+    for r in _req_cmds(maxnames_one):
+        for u in REQ_USES:
+            yield r + u
+    two = _req_cmds(maxnames_two)
+    for r1 in two:
+        for r2 in two:
+            for u in REQ_USES:
+                yield r1 + r2 + u
